@@ -177,11 +177,52 @@ def apalache(sd):
     return res
 
 
+WORKERS = max(2, min(8, vp.NCPU // 2))
+
+
+def run_harness(binp, cases, trace, wd):
+    """The cases are independent evaluations: deal them round-robin to WORKERS harness processes (each with its own fake
+    lightningd socket) and concatenate the traces. Exit code 4 of any worker = per-case watchdog fired (`hang`)."""
+    import subprocess
+    lines = [ln for ln in open(cases) if ln.strip()]
+    procs = []
+    for k in range(WORKERS):
+        d = os.path.join(wd, "w%d" % k)
+        os.makedirs(d)
+        with open(os.path.join(d, "cases.ndjson"), "w") as f:
+            f.writelines(lines[k::WORKERS])
+        env = dict(os.environ)
+        env.update(vp.GOENV)
+        procs.append((d, subprocess.Popen([binp, "-cases", os.path.join(d, "cases.ndjson"), "-out", os.path.join(d, "trace.ndjson"), "-dir", d],
+                                          stdout=subprocess.PIPE, stderr=subprocess.STDOUT, text=True, env=env)))
+    t0 = time.time()
+    outs = []
+    for d, p in procs:
+        try:
+            out, _ = p.communicate(timeout=max(1, 1500 - (time.time() - t0)))
+        except subprocess.TimeoutExpired:
+            for _, q in procs:
+                q.kill()
+            raise vp.Fatal("harness route: timeout")
+        outs.append((p.returncode, out or ""))
+    for rc, out in outs:
+        if rc == 4:
+            raise vp.Fatal("the code under test neither answered nor gave up within the per-case watchdog (recorded as `hang`, "
+                           "not a verdict): %s" % out[-600:])
+    for rc, out in outs:
+        if rc != 0:
+            raise vp.Fatal("harness route failed (%d): %s" % (rc, out[-3000:]))
+    with open(trace, "w") as f:
+        for d, _ in procs:
+            f.write(open(os.path.join(d, "trace.ndjson")).read())
+    vp.log("harness route: %d cases on the real code, %d workers, %.1fs" % (len(lines), WORKERS, time.time() - t0))
+
+
 def _nontrivial(ln):
     """A case is non-trivial if the real code took a decision that depends on the inputs the
     property quantifies over (a payment went out, or a check refused/admitted at a boundary)."""
     k = ln["kind"]
-    if k in ("route", "pay"):
+    if k in ("route", "pay", "retry"):
         return True
     if k == "await":
         return ln.get("out") in ("watch", "recovered") or ln.get("amtrel") == "eq"
@@ -194,13 +235,40 @@ def _work(prop, tier):
     parent = PARENT[prop]
     t0 = time.time()
     wd = vp.workdir(prop)
+    bg = []
     try:
         sd = vp.spec_copy(wd)
         binp = vp.build_harness("./cmd/route")
         open(os.path.join(sd, "TimelockMC_run.cfg"), "w").write(MC_CFG % (U32, tier, prop))
-        mc = vp.tlc("TimelockMC", "TimelockMC_run.cfg", sd, workers=4 if tier == "quick" else None, timeout=1500)
-        if not mc["ok"]:
-            raise vp.Fatal("Timelock.tla: design-level invariants fail: %s\n%s" % (mc["violated"], mc["out"][-3000:]))
+        # TLC writes the case space first (ASSUME, in module order) and then checks the lemmas and the design model;
+        # the harness and the trace validation run meanwhile, the model-checking result is collected at the end
+        import threading
+        box = {}
+
+        def mc_run():
+            try:
+                box["mc"] = vp.tlc("TimelockMC", "TimelockMC_run.cfg", sd, workers=4 if tier == "quick" else None, timeout=1500)
+            except BaseException as e:      # noqa: reported by mc_result()
+                box["err"] = e
+
+        th = threading.Thread(target=mc_run)
+        th.start()
+        bg.append(th)
+
+        def mc_result():
+            th.join()
+            if "err" in box:
+                raise box["err"]
+            if not box["mc"]["ok"]:
+                raise vp.Fatal("Timelock.tla: design-level invariants fail: %s\n%s" % (box["mc"]["violated"], box["mc"]["out"][-3000:]))
+            return box["mc"]
+
+        need = [os.path.join(sd, f) for f in ("export_done.json", "cases_%s.ndjson" % prop, "c05_expected.json")]
+        while th.is_alive() and not all(os.path.exists(f) for f in need):
+            time.sleep(0.05)
+        if not all(os.path.exists(f) for f in need):
+            mc_result()
+            raise vp.Fatal("TimelockMC did not export the case space")
         cases = os.path.join(sd, "cases_%s.ndjson" % prop)
         nspec = vp.count_lines(cases)
         nrand = 1500 if tier == "quick" else 25000
@@ -209,11 +277,10 @@ def _work(prop, tier):
             for c in rnd:
                 f.write(json.dumps(c) + "\n")
         trace = os.path.join(sd, "trace.ndjson")
-        sock = os.path.join(wd, "s")
-        os.makedirs(sock)
-        vp.run([binp, "-cases", cases, "-out", trace, "-dir", sock], timeout=1500)
+        run_harness(binp, cases, trace, wd)
         v = vp.validate_trace("TimelockTrace", "TimelockTrace.cfg", sd, trace, timeout=1500)
 
+        mc = mc_result()
         ver = vp.Verdicts(parent)
         mine = [s for s in v["viol"] if s.startswith(parent + "|")]
         foreign = [s for s in v["viol"] if not s.startswith(parent + "|")]
@@ -254,7 +321,7 @@ def _work(prop, tier):
                 refused += 0 if g.get("sent") else 1
             if _nontrivial(ln):
                 distinct.add(json.dumps({k: ln[k] for k in ln if k not in ("g", "err", "ret_ok", "out", "got", "allowed", "ev", "attempts",
-                                                                         "pre_ok", "w_start", "w_window", "claim_ok")}, sort_keys=True))
+                                                                         "pre_ok", "w_start", "w_window", "claim_ok", "tips", "exhausted")}, sort_keys=True))
         r = random.Random(vp.seed())
         samples = r.sample(lines, min(6, len(lines)))
         cov = dict(
@@ -298,6 +365,8 @@ def _work(prop, tier):
         ]
         return dict(ver=ver, coverage=cov, assumptions=assumptions, wall=time.time() - t0)
     finally:
+        for th_ in bg:
+            th_.join()
         vp.cleanup(wd)
 
 
